@@ -58,7 +58,9 @@ def generated_sources(n_per_fmt=3, base_seed=0):
     return out
 
 
-HTML_CHARSETS = ["utf-8", "iso-8859-1", "windows-1252", "iso-8859-8-i", "iso-8859-8-e", "koi8-r", "shift_jis", "x-mac-roman", "utf-16", "no-such-charset", "iso-8859-15", "cp437"]
+HTML_CHARSETS = ["utf-8", "iso-8859-1", "windows-1252", "iso-8859-8-i", "iso-8859-8-e", "koi8-r", "shift_jis", "x-mac-roman", "utf-16", "no-such-charset", "iso-8859-15", "cp437",
+                 "utf-7", "unicode_escape", "raw_unicode_escape", "punycode", "idna", "rot13", "hex", "undefined"]
+ESCAPE_CODECS = {"utf-7": b"qb00001z +2AA- +2D0- qb00002z", "unicode_escape": b"qb00001z \\ud83d \\udc00 qb00002z", "raw_unicode_escape": b"qb00001z \\ud83d qb00002z"}
 
 
 def all_sources(n_gen=3, base_seed=0):
@@ -98,8 +100,9 @@ def _load(key: str) -> bytes:
         cs = src[1]
         body = "qb00001z caf\u00e9 \u05e9\u05dc\u05d5\u05dd qb00002z"
         try:
-            raw = body.encode(cs)
-        except (LookupError, UnicodeEncodeError):
+            # escape-style codecs: a body that decodes to unpaired surrogates (what the bytes say, not text)
+            raw = ESCAPE_CODECS[cs] if cs in ESCAPE_CODECS else body.encode(cs)
+        except (LookupError, UnicodeError, TypeError):
             raw = b"qb00001z caf\xe9 \xf9\xec\xe5\xed qb00002z"
         return b'<html><head><meta http-equiv="Content-Type" content="text/html; charset=' + cs.encode() + b'"><title>t</title></head><body><p>' + raw + b"</p></body></html>"
     raise ValueError(src)
